@@ -504,25 +504,62 @@ def ifxAgree : IfxKind → IfxKind → Option Bool
   | .mac x, .mac y => some (x = y)
   | _, _ => none
 
+/-- what a token is for TeX while it skips conditional text: decided by its MEANING -/
+inductive CondKind where
+  | opens | closes | alt | other
+  deriving DecidableEq, Repr
+
+def texCondKind (tbl : Table) : Tok → CondKind
+  | .cs n =>
+    match tbl.lookup n with
+    | some (.prim .ifx) => .opens
+    | some (.prim .fi) => .closes
+    | some (.prim .else_) => .alt
+    | _ => .other
+  | _ => .other
+
+/-- the name of a token as far as conditionals are concerned -/
+def condName : Tok → Name
+  | .cs n => n
+  | .el n => n
+  | _ => []
+
+def nameStartsIf : Name → Bool
+  | 105 :: 102 :: _ => true
+  | _ => false
+
+/-- NF-prog 6, made precise: inside conditional text a token is a conditional primitive exactly if its NAME says so —
+    `\if…` names are `\ifx`-like primitives, `\fi` is `\fi`, `\else` is `\else`, and `\newif`, `\or` do not occur.
+    (plasTeX's branch skipper goes by names — observation O4 —, TeX by meanings; where the two differ the program is outside
+    the normal form.) -/
+def condNamesOk (tbl : Table) (t : Tok) : Bool :=
+  let n := condName t
+  if n = [110, 101, 119, 105, 102] ∨ n = [111, 114] then false
+  else if nameStartsIf n then texCondKind tbl t == .opens
+  else if n = [102, 105] then texCondKind tbl t == .closes
+  else if n = [101, 108, 115, 101] then texCondKind tbl t == .alt
+  else texCondKind tbl t == .other
+
 /-- skip to the matching `\fi`: (text before the `\else` of this level, text after it, input after the `\fi`).  Nested
     conditionals are tokens whose MEANING is `\ifx`; `seenElse` = an `\else` of this level has been passed.
-    `none` = no matching `\fi`, or a second `\else`. -/
+    `none` = no matching `\fi`, a second `\else`, or a token whose name and meaning disagree (`condNamesOk`). -/
 def texBranches (tbl : Table) : Nat → Bool → List Tok → List Tok → List Tok → Option (List Tok × List Tok × List Tok)
   | _, _, _, _, [] => none
   | nest, seenElse, tb, fb, t :: ts =>
-    let m := match t with | .cs n => tbl.lookup n | _ => none
-    let keep (x : Tok) := if seenElse then (tb, fb ++ [x]) else (tb ++ [x], fb)
-    match m with
-    | some (.prim .ifx) => texBranches tbl (nest + 1) seenElse (keep t).1 (keep t).2 ts
-    | some (.prim .fi) =>
+    let tb' := if seenElse then tb else tb ++ [t]
+    let fb' := if seenElse then fb ++ [t] else fb
+    if !condNamesOk tbl t then none else
+    match texCondKind tbl t with
+    | .opens => texBranches tbl (nest + 1) seenElse tb' fb' ts
+    | .closes =>
       match nest with
       | 0 => some (tb, fb, ts)
-      | k + 1 => texBranches tbl k seenElse (keep t).1 (keep t).2 ts
-    | some (.prim .else_) =>
+      | k + 1 => texBranches tbl k seenElse tb' fb' ts
+    | .alt =>
       match nest with
       | 0 => if seenElse then none else texBranches tbl 0 true tb fb ts
-      | k + 1 => texBranches tbl (k + 1) seenElse (keep t).1 (keep t).2 ts
-    | _ => texBranches tbl nest seenElse (keep t).1 (keep t).2 ts
+      | k + 1 => texBranches tbl (k + 1) seenElse tb' fb' ts
+    | .other => texBranches tbl nest seenElse tb' fb' ts
 
 /-- NF-prog: the programs of the macro language define their own names; a name currently bound to a primitive is never redefined -/
 def primBound (t : Table) (n : Name) : Bool :=
@@ -642,7 +679,7 @@ def starN : Name := [42]
     control symbols plasTeX's argument readers confuse with `=` and `*`, and the primitives plasTeX knows under names
     the macro language of the Spec does not have -/
 def reservedNames : List Name :=
-  [bgroupN, egroupN, eqN, starN, nm "edef", nm "xdef", nm "providecommand", nm "ifx", nm "else", nm "fi"]
+  [bgroupN, egroupN, eqN, starN, nm "edef", nm "xdef", nm "providecommand"]
 
 /-- the control sequence `\ifx` -/
 def texIsIfx : Tok → Bool
